@@ -272,6 +272,9 @@ def isni(c):
 
 # ------------------------------------------------------------------ GRid (IFPI Global Release Identifier)
 def grid(c, mod3736_ok):
+    # optionally written with the prefix "GRID:"
+    if c[:5] == 'GRID:':
+        c = c[5:]
     if len(c) != 18:
         raise Reject()
     if not _allalnum(c):
@@ -351,6 +354,9 @@ def figi(c):
 
 # ------------------------------------------------------------------ IMO ship identification number
 def imo(c):
+    # written "IMO" followed by seven digits; the prefix may be left out
+    if c[:3] == 'IMO':
+        c = c[3:]
     if len(c) != 7 or not _alldigits(c):
         raise Reject()
     total = 0
